@@ -1,6 +1,6 @@
 (* C01 - GC safety: nothing reachable is ever reclaimed, altered or left dangling.
    Only statements; proofs in Heap/*.v. *)
-From PL Require Import Heap.HeapModel Heap.MarkProofs Heap.CollectProofs Heap.HeapInv Heap.StepInv Heap.HistoryProofs Heap.StaticProofs.
+From PL Require Import Heap.HeapModel Heap.MarkProofs Heap.CollectProofs Heap.MarkTermination Heap.HeapInv Heap.StepInv Heap.HistoryProofs Heap.StaticProofs.
 From PL Require Import Generated.Static_gen.
 From Coq Require Import String.
 Local Open Scope N_scope.
@@ -59,3 +59,16 @@ Theorem C01_teardown_and_confinement :
   raw_pointer_use_outside_memory = [].
 Proof. split; [exact teardown_order|exact unsafe_confined]. Qed.
 Print Assumptions C01_teardown_and_confinement.
+
+(* the mark phase terminates and meets no dangling pointer: in EVERY reachable state a collection
+   completes (the fuel the model gives mark - cells + pointer fields + cells - always suffices) *)
+Theorem C01_collection_always_completes : forall p n ops g, run_ops p (init_gstate n) ops = Some g ->
+  exists h', collect p (gheap g) = Some h'.
+Proof.
+  intros p n ops g H. destruct (history_ginv p n ops g H) as [[_ Hcl _ _ _] _]. exact (collect_completes p (gheap g) Hcl).
+Qed.
+Print Assumptions C01_collection_always_completes.
+
+Theorem C01_mark_completes : forall h, closed h -> mark (mark_fuel h) (cells h) (rev (roots h)) [] <> None.
+Proof. exact mark_completes. Qed.
+Print Assumptions C01_mark_completes.
